@@ -7,10 +7,16 @@ namespace Tealer.C12
 /-- a contract with one straight block: the whole-contract function (path [B0]) has the same block ids and edges -/
 def tiny : List Ins := [⟨1, .pragma 8, ""⟩, ⟨2, .int (.lit 1), ""⟩, ⟨3, .ret, ""⟩]
 
-theorem C12_iso_tiny :
-    (do let t ← parseTeal tiny; let f ← constructFunction t [0]; pure (f.blocks.map fun b => (b.idx, b.next, b.prev)))
-      = (do let t ← parseTeal tiny; pure ((t.live.filterMap t.block?).map fun b => (b.idx, b.next, b.prev))) := by
-  decide
+def funcEdges (ins : List Ins) : Except Err (List (Nat × List Nat × List Nat)) := do
+  let t ← parseTeal ins
+  let f ← constructFunction t [0]
+  pure (f.blocks.map fun (b : FBlock) => (b.idx, b.next, b.prev))
+
+def tealEdges (ins : List Ins) : Except Err (List (Nat × List Nat × List Nat)) := do
+  let t ← parseTeal ins
+  pure ((t.live.filterMap t.block?).map fun (b : Block) => (b.idx, b.next, b.prev))
+
+theorem C12_iso_tiny : funcEdges tiny = tealEdges tiny := by decide
 
 /-- error blocks are leaves that lead nowhere and contain the custom error instruction: an execution that leaves the
     dispatch path there cannot be approved -/
